@@ -579,6 +579,25 @@ def rule_init(ctx: Ctx) -> RuleResult:
             res.ok(site, "called once on a fresh factory instance")
         else:
             res.violation([f.qualname, norm(cs.node.func), "typestate"], f"{f.short}: `{norm(cs.node)[:80]}` - {why}", f.relpath, cs.lineno)
+    # the empty instance is made anew on every call: object.__new__-style protocols (copy.copy, copy.deepcopy, pickle) call
+    # Sid.__new__ without arguments and then restore the copied state INTO what they get back
+    memo_q = {g.qualname for g, _ in memo.memoised_functions(ctx)}
+    fac = ctx.cg.factory_of(ctx.p.cls("spil.sid.sid.Sid"))
+    if fac is not None:
+        reach = ctx.cg.reachable_from([fac])
+        for q in sorted(reach):
+            g = ctx.p.functions.get(q)
+            if g is None or q not in memo_q or g.module.kind != "library":
+                continue
+            makes = any(isinstance(n, ast.keyword) and n.arg == "from_factory" for n in ast.walk(g.node)) or any(
+                isinstance(cs.node, ast.Call) and any(t.module.kind == "library" and any(isinstance(n, ast.keyword) and n.arg == "from_factory"
+                                                                                         for n in ast.walk(t.node)) for t in cs.targets)
+                for cs in ctx.cg.sites.get(q, []))
+            if makes and not [p_ for p_ in g.params if p_ not in ("self", "cls")]:
+                res.violation([q, "shared empty instance"],
+                              f"{g.short} is memoised, takes no argument and builds a Sid: every empty Sid is then one shared instance, and "
+                              f"copy.copy / deepcopy / pickle (which call Sid.__new__ without arguments and restore the state into the result) "
+                              f"overwrite it", g.relpath, g.node.lineno)
     # every fresh instance is initialised before it is returned
     for f in [g for g in ctx.p.iter_functions(kinds=("library",)) if in_factory(ctx, g)]:
         flow = flow_of(f.node)
